@@ -334,6 +334,45 @@ def rule_merge(ctx, F):
         ctx.gate("M1", fn, adds, [("versions are merged only if ts_stack_can_merge allows it", "ts_stack_can_merge(self, version1, version2)", True)], accept_desc="merging two versions")
 
 
+# ------------------------------------------------------------------------------------------------
+# U1: the summary fields live in a union with the leaf payloads
+# ------------------------------------------------------------------------------------------------
+NONTERMINAL_UNION_FIELDS = {"visible_child_count", "named_child_count", "visible_descendant_count", "dynamic_precedence", "repeat_depth", "production_id", "first_leaf"}
+UNION_ACCESSORS = ["ts_subtree_visible_descendant_count", "ts_subtree_visible_child_count", "ts_subtree_dynamic_precedence", "ts_subtree_production_id",
+                   "ts_node_child_count", "ts_node_named_child_count", "ts_node__relevant_child_count"]
+# read without a child_count test, by hand: one reason each
+UNION_TABLED = {
+    "ts_subtree_repeat_depth": "balancing heuristic only: ts_subtree_compress re-validates the shape (child_count >= 2, same symbol, unshared) before every rotation, so a garbage depth read from a leaf costs at most a skipped or attempted rotation",
+    "ts_subtree_leaf_symbol": "tests child_count == 0 first and then returns the node's own symbol",
+    "ts_subtree_leaf_parse_state": "tests child_count == 0 first and then returns the node's own state",
+}
+
+
+def rule_union(ctx, F):
+    """U1: child/descendant counts, dynamic precedence, production id and first-leaf share a union with a leaf's
+    external-scanner state and look-ahead character (subtree.h).  An accessor may read a non-terminal member only after
+    it established that the node has children; on a leaf the same bytes are scanner state copied in after construction."""
+    n = 0
+    for name in UNION_ACCESSORS + sorted(UNION_TABLED):
+        fn = F.fns.get(name)
+        if fn is None:
+            if name in UNION_ACCESSORS:
+                ctx.bad("U1", "%s:missing" % name, "accessor %s not found" % name)
+            continue
+        reads = sorted({pt for pt, e in fn.points() for x in own_walk(e) if x.get("k") == "mem" and x.get("f") in NONTERMINAL_UNION_FIELDS and (x.get("rec") or "") == "SubtreeHeapData"})
+        if not reads:
+            continue
+        n += len(reads)
+        if name in UNION_TABLED and name not in ("ts_subtree_leaf_symbol", "ts_subtree_leaf_parse_state"):
+            ctx.ok("U1", "%s:tabled" % name, "tabled: " + UNION_TABLED[name], nontrivial=False)
+            continue
+        subj = "tree" if name.startswith("ts_node") else "self"
+        alts = [("%s.ptr->child_count == 0" % subj, False), ("%s.ptr->child_count > 0" % subj, True), ("%s.ptr->child_count != 0" % subj, True), ("%s.ptr->child_count" % subj, True),
+                ("ts_subtree_child_count(%s) > 0" % subj, True), ("ts_subtree_child_count(%s) == 0" % subj, False), ("ts_subtree_child_count(%s)" % subj, True)]
+        ctx.gate("U1", fn, reads, [("a non-terminal union member is read only from a node that has children", alts)], accept_desc="reading a non-terminal union member")
+    ctx.floor("reads of non-terminal union members in the accessors", n, 8)
+
+
 def run(ctx):
     for cfg in configs(ctx):
         ctx.config = cfg
@@ -346,6 +385,7 @@ def run(ctx):
         rule_p2(ctx, F)
         rule_merge(ctx, F)
         rule_tiling(ctx, F)
+        rule_union(ctx, F)
         # a reused EOF leaf ends the tree: its range veto must look to the end of the file (shared with C01.P6)
         import C01
         C01.rule_saturation(ctx, F)
